@@ -16,6 +16,7 @@ one whole pass of `_process_action` (`C08_refines_partial`: nesting depth ≤ 64
 see `C08_refines_counterexample`).  Part C: what is sent until the action completes is the unrolled script's send
 texts in order. -/
 namespace Pm.Props.C08
+open Pm.Dev2.Interp
 open Pm.Dev2
 
 /-! ## A1  send -/
@@ -103,13 +104,18 @@ theorem C08_expect_blocks (k : CS → Oracle → List Out → Option Time → PA
     (onRun k rest c a o out tmo left).1.dev.acts = a :: rest :=
   onRun_expect_waits k rest c a o out tmo left pat hcur h
 
-/-- the same for any statement that reports "not finished" (a send whose bytes are not yet written, a running delay):
-    the `do … while` ends at once and the trip stores the action back at the head of the queue -/
+/-- the same for any statement that reports "not finished" (an expect without match, a send whose bytes are not yet
+    written, a running delay): the `do … while` ends at once, the trip stores the action back at the head of the queue,
+    and its stack is what it was — same contexts, blocks, positions and iterators — except possibly for the
+    `processing` flag of the top context -/
 theorem C08_unfinished_stays (k : CS → Oracle → List Out → Option Time → PA) (rest : List Action) (c : CS) (a : Action)
-    (o : Oracle) (out : List Out) (tmo : Option Time) (left : Time)
+    (o : Oracle) (out : List Out) (tmo : Option Time) (left : Time) (e : ExecCtx) (stack : List ExecCtx)
+    (hex : a.exec = e :: stack)
     (h : (processStmt { c.dev with wake := none } a o c.env.now).finished = false) :
-    (onRun k rest c a o out tmo left).1.dev.acts = (processStmt { c.dev with wake := none } a o c.env.now).act :: rest :=
-  (onRun_stalled_acts k rest c a o out tmo left h).1
+    ∃ a' p', (onRun k rest c a o out tmo left).1.dev.acts = a' :: rest ∧
+      a'.exec = { e with processing := p' } :: stack := by
+  obtain ⟨p', hp⟩ := unfinished_shape _ a o c.env.now e stack hex h
+  exact ⟨_, p', (onRun_stalled_acts k rest c a o out tmo left h).1, hp⟩
 
 /-- non-vacuity: input `"login: "` in the buffer, the oracle answers "no match" — the expect does not finish -/
 example :
@@ -361,7 +367,9 @@ theorem C08_unroll (R : Bool) (dp : List Plug) (pl : Option (List Plug)) :
   · intro us; simp [unrollStmt]
   · intro l pm sm is; simp [unrollStmt]
   · intro pm sm is; simp [unrollStmt]
-  · intro b; simp [unrollStmt, eachList, skipped, List.filter_true]
+  · intro b
+    have hft : ∀ l : List Plug, l.filter (fun _ => true) = l := fun l => by induction l <;> simp_all
+    simp [unrollStmt, eachList, skipped, hft]
   · intro b
     simp only [unrollStmt, eachList, skipped, Bool.true_and]
     congr 2; funext p; cases p.node <;> rfl
